@@ -179,9 +179,9 @@ func drawConfig(t *rapid.T) config {
 	c.NoProtoSel = rapid.IntRange(0, 4).Draw(t, "noprotosel") == 0
 	c.HTTPServer = rapid.IntRange(0, 3).Draw(t, "httpserver") == 0
 	if !c.HTTPServer && rapid.IntRange(0, 7).Draw(t, "reject?") == 0 {
-		c.Reject = rapid.SampledFrom([]string{"status", "nostatus", "plain"}).Draw(t, "reject")
+		c.Reject = rapid.SampledFrom([]string{"status", "nostatus", "plain", "status-noreason"}).Draw(t, "reject")
 		c.RejectCode = 403
-		if c.Reject == "status" && rapid.Bool().Draw(t, "anycode") {
+		if strings.HasPrefix(c.Reject, "status") && rapid.Bool().Draw(t, "anycode") {
 			c.RejectCode = rapid.IntRange(400, 599).Draw(t, "rejectcode")
 		}
 	}
@@ -275,6 +275,8 @@ func (c config) upgrader() ws.Upgrader {
 		u.OnRequest = func([]byte) error {
 			return ws.RejectConnectionError(ws.RejectionStatus(c.RejectCode), ws.RejectionReason("members only"))
 		}
+	case "status-noreason": // no reason given: the response has an empty body
+		u.OnRequest = func([]byte) error { return ws.RejectConnectionError(ws.RejectionStatus(c.RejectCode)) }
 	case "nostatus":
 		u.OnRequest = func([]byte) error { return ws.RejectConnectionError(ws.RejectionReason("no")) }
 	case "plain":
@@ -397,6 +399,9 @@ type serverPeer struct {
 	chunks   []int
 	src      *tx.Src
 	resp     []byte
+	// pastEnd counts the Read calls made after everything the server sends had been delivered: on a live
+	// connection that the server keeps open each of them would block.
+	pastEnd int
 }
 
 func (p *serverPeer) Write(b []byte) (int, error) { return p.req.Write(b) }
@@ -404,6 +409,9 @@ func (p *serverPeer) Read(b []byte) (int, error) {
 	if p.src == nil {
 		p.resp = p.serve(p.req.Bytes())
 		p.src = tx.NewSrc(append(append([]byte(nil), p.resp...), p.trailing...), p.chunks)
+	}
+	if len(b) > 0 && len(p.src.Remaining()) == 0 {
+		p.pastEnd++
 	}
 	return p.src.Read(b)
 }
@@ -488,11 +496,11 @@ func TestPeersAgree(t *testing.T) {
 		}
 		if c.Reject != "" && !r.srvWriteFailed {
 			want := 500
-			if c.Reject == "status" {
+			if strings.HasPrefix(c.Reject, "status") {
 				want = c.RejectCode
 			}
 			hx.Class("pair/rejected-by-hook=" + c.Reject)
-			if c.Reject == "status" && http.StatusText(want) == "" {
+			if strings.HasPrefix(c.Reject, "status") && http.StatusText(want) == "" {
 				hx.Class("pair/rejected-by-hook=status/no-reason-phrase")
 			}
 			se, ok := r.cliErr.(ws.StatusError)
@@ -805,6 +813,7 @@ func (fakeConn) SetReadDeadline(time.Time) error  { return nil }
 func (fakeConn) SetWriteDeadline(time.Time) error { return nil }
 
 type dialOutcome struct {
+	pastEnd   int // reads Dial made after the server's last byte had been delivered
 	err       error
 	hs        ws.Handshake
 	rest      []byte
@@ -914,6 +923,7 @@ func dialOnceW(c config, debug bool, respChunks []int, trailing []byte, pad int,
 		}
 	}
 	out.brNil = br == nil
+	out.pastEnd = peer.pastEnd
 	_, out.connIsWrap = conn.(userWrap)
 	if out.err == nil {
 		if br != nil {
@@ -993,6 +1003,12 @@ func TestDebugDialerFaithful(t *testing.T) {
 		}
 		if !bytes.Equal(plain.req, dbg.req) {
 			t.Fatalf("DebugDialer changes the request bytes")
+		}
+		if plain.pastEnd == 0 && dbg.pastEnd > 0 {
+			t.Fatalf("DebugDialer.Dial asked the connection for more bytes (%d reads) after the server's last byte, the plain dialer did not: on a connection the server keeps open it would hang\nresponse: %q", dbg.pastEnd, dbg.resp)
+		}
+		if c.Reject != "" {
+			hx.Class("debug-dialer/rejected-by-hook=" + c.Reject)
 		}
 		if cbReq && !bytes.Equal(gotReq, dbg.req) {
 			t.Fatalf("OnRequest reported\n%q\nthe request on the wire was\n%q", gotReq, dbg.req)
